@@ -723,12 +723,14 @@ theorem static_bin_all (op : Op) (b : Bool) (l r : SE)
     static (.bin op b l r) =
       if isVec l && isVec r then
         { (static l) with num := (fold op (static l).num (static r).num (static l).dead).1,
-                          dead := (fold op (static l).num (static r).num (static l).dead).2 }
+                          dead := (fold op (static l).num (static r).num (static l).dead).2,
+                          cond := (static l).cond || op.isCmp }
       else
         { (if isVec l then static l else if isVec r then static r else static l) with
             dead := (fold op (static l).num (static r).num (static l).dead).2,
             num := if op.isCmp then (if isVec l then static l else if isVec r then static r else static l).num
-                   else (fold op (static l).num (static r).num (static l).dead).1 } := by
+                   else (fold op (static l).num (static r).num (static l).dead).1,
+            cond := (if isVec l then static l else if isVec r then static r else static l).cond || op.isCmp } := by
   simp [static, la, lk, ra, rk]
 
 theorem fold_arith (op : Op) (a b : Int) (d : Bool) (hc : op.isCmp = false) : fold op a b d = (op.arith a b, d) := by
@@ -895,49 +897,199 @@ theorem agrees_bin (op : Op) (l r : SE) (hl : Agrees l) (hr : Agrees r)
               · rw [fold_cmp_true _ _ _ _ hc hh] at hd
                 exact absurd (hdx hd) (by simp)
 
-theorem agrees : ∀ e : SE, closed e = true → boolFree e = true → wellTyped e = true → valueKeeping e = true → Agrees e := by
+/-- a closed expression that is not a vector evaluates to a scalar -/
+theorem scalar_eval : ∀ e : SE, closed e = true → wellTyped e = true → isVec e = false → ∃ k, eval e = .s k := by
   intro e
   induction e with
-  | num k => intro _ _ _ _; simp [Agrees, static, eval, isVec]
+  | num k => intro _ _ _; exact ⟨k, rfl⟩
   | sel => intro hc; simp [closed] at hc
+  | vector e _ => intro _ _ hv; simp [isVec] at hv
+  | fn k e _ => intro _ _ hv; simp [isVec] at hv
+  | agg k e _ => intro _ _ hv; simp [isVec] at hv
+  | unlessOn l r _ _ => intro _ _ hv; simp [isVec] at hv
+  | neg e ih =>
+    intro hc ht hv
+    simp only [closed] at hc
+    simp only [wellTyped] at ht
+    simp only [isVec] at hv
+    obtain ⟨k, hk⟩ := ih hc ht hv
+    exact ⟨-k, by simp [eval, hk]⟩
+  | bin op b l r ihl ihr =>
+    intro hc ht hv
+    simp only [closed, Bool.and_eq_true] at hc
+    simp only [wellTyped, Bool.and_eq_true] at ht
+    simp only [isVec, Bool.or_eq_false_iff] at hv
+    obtain ⟨a, ha⟩ := ihl hc.1 ht.1.1 hv.1
+    obtain ⟨c, hc'⟩ := ihr hc.2 ht.1.2 hv.2
+    simp only [eval, ha, hc', evalBin]
+    split <;> exact ⟨_, rfl⟩
+
+theorem static_bin_cond (op : Op) (b : Bool) (l r : SE) (hvv : (isVec l && isVec r) = false) :
+    (static (.bin op b l r)).cond = ((if isVec l then static l else if isVec r then static r else static l).cond || op.isCmp) := by
+  simp only [static, hvv, Bool.false_eq_true, if_false]
+  split <;> rfl
+
+/-- **what `AlwaysReturns && !IsConditional` promises**, where no two vectors meet: a closed vector expression that no
+comparison guards returns a sample -/
+theorem vec_nonEmpty : ∀ e : SE, closed e = true → boolFree e = true → wellTyped e = true → noVV e = true →
+    (static e).cond = false → isVec e = true → ∃ k, eval e = .v (some k) := by
+  intro e
+  induction e with
+  | num k => intro _ _ _ _ _ hv; simp [isVec] at hv
+  | sel => intro hc; simp [closed] at hc
+  | unlessOn l r _ _ => intro _ _ _ hn; simp [noVV] at hn
+  | vector e _ =>
+    intro hc _ ht _ _ _
+    simp only [closed] at hc
+    simp only [wellTyped, Bool.and_eq_true, Bool.not_eq_true'] at ht
+    obtain ⟨k, hk⟩ := scalar_eval e hc ht.2 ht.1
+    exact ⟨k, by simp [eval, hk]⟩
+  | neg e ih =>
+    intro hc hb ht hn hcond hv
+    simp only [closed] at hc
+    simp only [boolFree] at hb
+    simp only [wellTyped] at ht
+    simp only [noVV] at hn
+    simp only [isVec] at hv
+    have hc' : (static e).cond = false := by
+      simp only [static] at hcond
+      split at hcond <;> simpa using hcond
+    obtain ⟨k, hk⟩ := ih hc hb ht hn hc' hv
+    exact ⟨-k, by simp [eval, hk]⟩
   | fn keeps e ih =>
-    intro hc hb ht hk
+    intro hc hb ht hn hcond _
+    simp only [closed] at hc
+    simp only [boolFree] at hb
+    simp only [wellTyped, Bool.and_eq_true] at ht
+    simp only [noVV] at hn
+    have hc' : (static e).cond = false := by
+      simp only [static] at hcond
+      split at hcond <;> simpa using hcond
+    obtain ⟨k, hk⟩ := ih hc hb ht.2 hn hc' ht.1
+    cases keeps
+    · exact ⟨Int.natAbs k, by simp [eval, hk]⟩
+    · exact ⟨k, by simp [eval, hk]⟩
+  | agg keeps e ih =>
+    intro hc hb ht hn hcond _
+    simp only [closed] at hc
+    simp only [boolFree] at hb
+    simp only [wellTyped, Bool.and_eq_true] at ht
+    simp only [noVV] at hn
+    have hc' : (static e).cond = false := by simpa [static] using hcond
+    obtain ⟨k, hk⟩ := ih hc hb ht.2 hn hc' ht.1
+    cases keeps
+    · exact ⟨1, by simp [eval, hk]⟩
+    · exact ⟨k, by simp [eval, hk]⟩
+  | bin op b l r ihl ihr =>
+    intro hc hb ht hn hcond hv
+    simp only [closed, Bool.and_eq_true] at hc
+    simp only [boolFree, Bool.and_eq_true, Bool.not_eq_true'] at hb
+    simp only [wellTyped, Bool.and_eq_true] at ht
+    simp only [noVV, Bool.and_eq_true, Bool.not_eq_true'] at hn
+    simp only [isVec, Bool.or_eq_true] at hv
+    obtain ⟨⟨hbool, hbl⟩, hbr⟩ := hb
+    subst hbool
+    obtain ⟨⟨hvv, hnl⟩, hnr⟩ := hn
+    rw [static_bin_cond op false l r hvv] at hcond
+    simp only [Bool.or_eq_false_iff] at hcond
+    obtain ⟨hside, hcmp⟩ := hcond
+    cases hvl : isVec l
+    · -- the right side is the vector
+      have hvr : isVec r = true := by rcases hv with h | h; · rw [hvl] at h; cases h
+                                      · exact h
+      simp only [hvl, hvr, Bool.false_eq_true, if_false, if_true] at hside
+      obtain ⟨a, ha⟩ := scalar_eval l hc.1 ht.1.1 hvl
+      obtain ⟨k, hk⟩ := ihr hc.2 hbr ht.1.2 hnr hside hvr
+      exact ⟨op.arith a k, by simp [eval, ha, hk, evalBin, apply, hcmp]⟩
+    · have hvr : isVec r = false := by simpa [hvl] using hvv
+      simp only [hvl, if_true] at hside
+      obtain ⟨k, hk⟩ := ihl hc.1 hbl ht.1.1 hnl hside hvl
+      obtain ⟨c, hc'⟩ := scalar_eval r hc.2 ht.1.2 hvr
+      exact ⟨op.arith k c, by simp [eval, hk, hc', evalBin, apply, hcmp]⟩
+
+theorem agrees : ∀ e : SE, closed e = true → boolFree e = true → wellTyped e = true → valueKeeping e = true →
+    unlessSimple e = true → Agrees e := by
+  intro e
+  induction e with
+  | num k => intro _ _ _ _ _; simp [Agrees, static, eval, isVec]
+  | sel => intro hc; simp [closed] at hc
+  | unlessOn l r ihl ihr =>
+    intro hc hb ht hk hu
+    simp only [closed, Bool.and_eq_true] at hc
+    simp only [boolFree, Bool.and_eq_true] at hb
+    simp only [wellTyped, Bool.and_eq_true] at ht
+    simp only [valueKeeping, Bool.and_eq_true] at hk
+    simp only [unlessSimple, Bool.and_eq_true] at hu
+    obtain ⟨⟨⟨hvl, hvr⟩, htl⟩, htr⟩ := ht
+    obtain ⟨⟨hnr, hul⟩, hur⟩ := hu
+    obtain ⟨la, lk, _, lv⟩ := ihl hc.1 hb.1 htl hk.1 hul
+    obtain ⟨ra, _, _, rv⟩ := ihr hc.2 hb.2 htr hk.2 hur
+    obtain ⟨x, ex, hx, hdx⟩ := lv hvl
+    obtain ⟨y, ey, _, _⟩ := rv hvr
+    have hstd : (static (.unlessOn l r)) = if (static r).always && !(static r).cond then { (static l) with dead := true } else static l := by
+      simp [static]
+    refine ⟨?_, ?_, fun h => by simp [isVec] at h, fun _ => ?_⟩
+    · rw [hstd]; split <;> exact la
+    · rw [hstd]; split <;> exact lk
+    · refine ⟨if y.isSome then none else x, by simp only [eval, ex, ey]; split <;> rfl, ?_, ?_⟩
+      · intro k hk'
+        have hnum : (static (.unlessOn l r)).num = (static l).num := by rw [hstd]; split <;> rfl
+        rw [hnum]
+        cases hy : y.isSome
+        · simp [hy] at hk'; exact hx k hk'
+        · simp [hy] at hk'
+      · intro hd
+        rw [hstd] at hd
+        by_cases hcnd : ((static r).always && !(static r).cond) = true
+        · simp only [Bool.and_eq_true, Bool.not_eq_true'] at hcnd
+          obtain ⟨k, hk'⟩ := vec_nonEmpty r hc.2 hb.2 htr hnr hcnd.2 hvr
+          rw [ey] at hk'
+          cases hk'
+          simp
+        · simp only [hcnd, Bool.false_eq_true, if_false] at hd
+          simp [hdx hd]
+  | fn keeps e ih =>
+    intro hc hb ht hk hu
+    simp only [unlessSimple] at hu
     simp only [closed] at hc
     simp only [boolFree] at hb
     simp only [wellTyped, Bool.and_eq_true] at ht
     simp only [valueKeeping, Bool.and_eq_true] at hk
     obtain ⟨hkeeps, hk⟩ := hk
     subst hkeeps
-    obtain ⟨ha, hkn, _, hv⟩ := ih hc hb ht.2 hk
+    obtain ⟨ha, hkn, _, hv⟩ := ih hc hb ht.2 hk hu
     refine ⟨by simpa [static] using ha, by simpa [static] using hkn, fun h => by simp [isVec] at h, fun _ => ?_⟩
     simpa [static, eval] using hv ht.1
   | agg keeps e ih =>
-    intro hc hb ht hk
+    intro hc hb ht hk hu
+    simp only [unlessSimple] at hu
     simp only [closed] at hc
     simp only [boolFree] at hb
     simp only [wellTyped, Bool.and_eq_true] at ht
     simp only [valueKeeping, Bool.and_eq_true] at hk
     obtain ⟨hkeeps, hk⟩ := hk
     subst hkeeps
-    obtain ⟨ha, hkn, _, hv⟩ := ih hc hb ht.2 hk
+    obtain ⟨ha, hkn, _, hv⟩ := ih hc hb ht.2 hk hu
     refine ⟨by simpa [static] using ha, by simpa [static] using hkn, fun h => by simp [isVec] at h, fun _ => ?_⟩
     simpa [static, eval] using hv ht.1
   | vector e ih =>
-    intro hc hb ht hvk
+    intro hc hb ht hvk hu
+    simp only [unlessSimple] at hu
     simp only [valueKeeping] at hvk
     simp only [closed] at hc
     simp only [boolFree] at hb
     simp only [wellTyped, Bool.and_eq_true, Bool.not_eq_true'] at ht
-    obtain ⟨_, hk, hs, _⟩ := ih hc hb ht.2 hvk
+    obtain ⟨_, hk, hs, _⟩ := ih hc hb ht.2 hvk hu
     obtain ⟨he, _⟩ := hs ht.1
     simp [Agrees, static, eval, isVec, hk, he]
   | neg e ih =>
-    intro hc hb ht hvk
+    intro hc hb ht hvk hu
+    simp only [unlessSimple] at hu
     simp only [valueKeeping] at hvk
     simp only [closed] at hc
     simp only [boolFree] at hb
     simp only [wellTyped] at ht
-    obtain ⟨ha, hk, hs, hv⟩ := ih hc hb ht hvk
+    obtain ⟨ha, hk, hs, hv⟩ := ih hc hb ht hvk hu
     have hst : static (.neg e) = { (static e) with num := -(static e).num } := by simp [static, hk]
     refine ⟨by rw [hst]; exact ha, by rw [hst]; exact hk, ?_, ?_⟩
     · intro hve
@@ -962,19 +1114,20 @@ theorem agrees : ∀ e : SE, closed e = true → boolFree e = true → wellTyped
         rw [hst] at hd
         simp [hdead hd]
   | bin op isBool l r ihl ihr =>
-    intro hc hb ht hvk
+    intro hc hb ht hvk hu
+    simp only [unlessSimple, Bool.and_eq_true] at hu
     simp only [valueKeeping, Bool.and_eq_true] at hvk
     simp only [closed, Bool.and_eq_true] at hc
     simp only [boolFree, Bool.and_eq_true, Bool.not_eq_true'] at hb
     simp only [wellTyped, Bool.and_eq_true] at ht
     obtain ⟨⟨hbool, hbl⟩, hbr⟩ := hb
     subst hbool
-    exact agrees_bin op l r (ihl hc.1 hbl ht.1.1 hvk.1) (ihr hc.2 hbr ht.1.2 hvk.2) (by simpa using ht.2)
+    exact agrees_bin op l r (ihl hc.1 hbl ht.1.1 hvk.1 hu.1) (ihr hc.2 hbr ht.1.2 hvk.2 hu.2) (by simpa using ht.2)
 
 /-- **C12, static verdicts**: a closed, `bool`-free query that `calculateStaticReturn` declares dead returns nothing -/
 theorem static_dead_returns_nothing (e : SE) (hc : closed e = true) (hb : boolFree e = true) (ht : wellTyped e = true)
-    (hk : valueKeeping e = true) (hd : (static e).dead = true) : eval e = .v none := by
-  obtain ⟨_, _, hs, hv⟩ := agrees e hc hb ht hk
+    (hk : valueKeeping e = true) (hu : unlessSimple e = true) (hd : (static e).dead = true) : eval e = .v none := by
+  obtain ⟨_, _, hs, hv⟩ := agrees e hc hb ht hk hu
   cases hve : isVec e
   · have := (hs hve).2; rw [hd] at this; cases this
   · obtain ⟨x, hx, _, hdead⟩ := hv hve
@@ -982,8 +1135,9 @@ theorem static_dead_returns_nothing (e : SE) (hc : closed e = true) (hb : boolFr
 
 /-- and the number pint folds further is the value the query returns, whenever it returns one -/
 theorem static_number_is_the_value (e : SE) (hc : closed e = true) (hb : boolFree e = true) (ht : wellTyped e = true)
-    (hk : valueKeeping e = true) (k : Int) (hv : eval e = .v (some k) ∨ eval e = .s k) : (static e).num = k := by
-  obtain ⟨_, _, hs, hvec⟩ := agrees e hc hb ht hk
+    (hk : valueKeeping e = true) (hu : unlessSimple e = true) (k : Int) (hv : eval e = .v (some k) ∨ eval e = .s k) :
+    (static e).num = k := by
+  obtain ⟨_, _, hs, hvec⟩ := agrees e hc hb ht hk hu
   cases hve : isVec e
   · have he := (hs hve).1
     rcases hv with h | h
@@ -1010,6 +1164,15 @@ theorem static_stale_through_join_not_sound :
     ∃ e : SE, closed e = true ∧ boolFree e = true ∧ wellTyped e = true ∧ (static e).dead = true ∧ eval e = .v (some 3) :=
   ⟨by decide, .bin .gt false (.bin .add false (.vector (.num 2)) (.fn false (.vector (.num (-1))))) (.num 2), by decide⟩
 
+/-- `AlwaysReturns` survives an operation between two vectors although the result can be empty:
+`vector(1) unless on() (vector(1) + (vector(1) > 2))` is declared dead (the `unless` query "always returns something")
+and returns 1 - the recorded finding `C12-unless-through-join` at the level of the model, and the reason for
+`unlessSimple` -/
+theorem static_unless_through_join_not_sound :
+    ∃ e : SE, closed e = true ∧ boolFree e = true ∧ wellTyped e = true ∧ valueKeeping e = true ∧
+      (static e).dead = true ∧ eval e = .v (some 1) :=
+  ⟨.unlessOn (.vector (.num 1)) (.bin .add false (.vector (.num 1)) (.bin .gt false (.vector (.num 1)) (.num 2))), by decide⟩
+
 /-- aggregations keep the number known for their input whatever they do to the value: `count(vector(0)) > 0` is folded
 to `0 > 0` and declared dead although it returns 1 - the recorded finding `C12-static-aggregated` (pinned by the
 existing tests) at the level of the model -/
@@ -1021,7 +1184,7 @@ theorem static_aggregated_not_sound :
 example :
     (static (.bin .gt false (.vector (.num 1)) (.num 2))).dead = true ∧
     closed (.bin .gt false (.vector (.num 1)) (.num 2)) = true ∧ wellTyped (.bin .gt false (.vector (.num 1)) (.num 2)) = true ∧
-    static (.bin .add false (.bin .gt false (.vector (.num 3)) (.num 2)) (.num 1)) = ⟨true, true, 4, false⟩ ∧
+    static (.bin .add false (.bin .gt false (.vector (.num 3)) (.num 2)) (.num 1)) = ⟨true, true, 4, false, true⟩ ∧
     eval (.bin .add false (.bin .gt false (.vector (.num 3)) (.num 2)) (.num 1)) = .v (some 4) := by decide
 
 end staticFold
